@@ -39,24 +39,29 @@ Mon0(p) == [p |-> p, pd |-> FALSE, pe |-> "nil", pfin |-> 0, pcb |-> 0, pcbad |-
             raced |-> FALSE,                         \* a Proceed was issued at an expiry instant
             v18 |-> "", v19 |-> "", n18 |-> 0, n19 |-> 0]
 
+Racing(o) == o.ev \in {"tS", "tF", "tP"}
 First(old, new) == IF old # "" THEN old ELSE new
 
 (* ---------------------------------------------------------------- C18 *)
-Racing(o) == o.ev \in {"tS", "tF", "tP"}
 \* (a callback that timeout() decided on may be entered while a racing Success()
 \* closes Done: entries during a racing step are not judged)
 How(m, o) == IF m.how # "" THEN m.how
-             ELSE IF o.done THEN o.ev \o (IF o.parked THEN "-in-callback" ELSE "")
-             ELSE ""
+             ELSE IF ~o.done THEN ""
+             ELSE IF o.ev \in {"S", "F"} THEN (IF o.parked THEN "call-in-callback" ELSE "call")
+             ELSE IF o.ev = "rel" THEN "callback-error"
+             ELSE IF Racing(o) THEN "racing-call"
+             ELSE "timer"
 V18s(m, o) ==
     IF o.fin > 1 /\ m.pfin <= 1             THEN "C18/finally-ran-twice"
     ELSE IF m.pd /\ o.err # m.pe            THEN "C18/err-changed-after-done"
     ELSE IF o.cbad > m.pcbad /\ ~Racing(o)  THEN "C18/retry-callback-after-done"
     ELSE IF o.done /\ o.fin = 0             THEN "C18/done-without-finally"
     ELSE ""
-\* signature = symptom / kind / how the transaction had finished
+\* signature = symptom / kind [/ how the transaction had finished, for retries after Done]
 V18(m, o) == IF V18s(m, o) = "" THEN ""
-             ELSE V18s(m, o) \o "/" \o m.p.kind \o "/done-by-" \o How(m, o)
+             ELSE IF V18s(m, o) = "C18/retry-callback-after-done"
+                  THEN V18s(m, o) \o "/" \o m.p.kind \o "/done-by-" \o How(m, o)
+             ELSE V18s(m, o) \o "/" \o m.p.kind
 
 (* ---------------------------------------------------------------- C19 *)
 Dcb(m, o)     == o.cb - m.pcb
